@@ -64,7 +64,8 @@ def _is_zero(x):
 
 
 def vf_calls(value, is_vf_call):
-    return [t for t in T.subterms(value) if is_vf_call(t)]
+    # evaluations the value is computed with: a call that only lends its shape or dtype (eval_shape, the metadata of an unravel closure) evaluates nothing
+    return [t for t in T.value_subterms(value) if is_vf_call(t)]
 
 
 def check_event(it, ev, is_vf_call, time_atom, depth=0, sites=None):
